@@ -150,6 +150,11 @@ Fixpoint map3 {A B C R} (f : A -> B -> C -> R) (a : list A) (b : list B) (c : li
   | _, _, _ => []
   end.
 
+Definition welch_genes (D : Z) (l1 l2 : list cstat) : list tnu :=
+  map (fun cc => welch_gene D (fst cc) (snd cc)) (combine l1 l2).
+Definition welch_pvalues (H lo hi : Z) (b : option (Z * Z)) (tn : list tnu) (cdfs : list (option Z)) : list Z :=
+  map (fun gc => welch_p H lo hi b (fst gc) (snd gc)) (combine tn cdfs).
+
 (* the per-pair input of score_differential_genes, computed from the two rows; cdfs are the
    oracle's values t.cdf(t_g, nu_g), one per gene *)
 Definition stats_pair (D S H lo hi T : Z) (b : option (Z * Z)) (cdfs : list (option Z)) (s1 s2 : summary)
@@ -158,12 +163,11 @@ Definition stats_pair (D S H lo hi T : Z) (b : option (Z * Z)) (cdfs : list (opt
   pbind (cstats_of s2) (fun l2 =>
     if negb ((length l1 =? length l2)%nat && (length l1 =? length cdfs)%nat) then PErr E_SHAPE
     else
-      let tn := map (fun cc => welch_gene D (fst cc) (snd cc)) (combine l1 l2) in
       match opt_list (map (fun cc => gene_in D S (fst cc) (snd cc)) (combine l1 l2)) with
       | None => PErr E_INEXACT
       | Some gi =>
           POk (mk_pair_in (s_n s1) (s_n s2) (2 * H) T
-                          (map (fun gc => welch_p H lo hi b (fst gc) (snd gc)) (combine tn cdfs))
+                          (welch_pvalues H lo hi b (welch_genes D l1 l2) cdfs)
                           (map (fun x : score * Z * Z => fst (fst x)) gi)
                           (map (fun x : score * Z * Z => snd (fst x)) gi)
                           (map (fun x : score * Z * Z => snd x) gi))
@@ -192,7 +196,7 @@ Definition run_welch (x : sx) : sx :=
           of_pres (of_list of_tnu)
                   (pbind (cstats_of s1) (fun l1 => pbind (cstats_of s2) (fun l2 =>
                      if negb (length l1 =? length l2)%nat then PErr E_SHAPE
-                     else POk (map (fun cc => welch_gene D (fst cc) (snd cc)) (combine l1 l2)))))
+                     else POk (welch_genes D l1 l2))))
       | _, _, _ => sx_bad
       end
   | _ => sx_bad
@@ -241,8 +245,7 @@ Definition run_welch_p (x : sx) : sx :=
           of_pres of_LZ
                   (pbind (cstats_of s1) (fun l1 => pbind (cstats_of s2) (fun l2 =>
                      if negb ((length l1 =? length l2)%nat && (length l1 =? length cs')%nat) then PErr E_SHAPE
-                     else POk (map (fun gc => welch_p H lo' hi' b' (fst gc) (snd gc))
-                                   (combine (map (fun cc => welch_gene D (fst cc) (snd cc)) (combine l1 l2)) cs')))))
+                     else POk (welch_pvalues H lo' hi' b' (welch_genes D l1 l2) cs'))))
       | _, _, _, _, _ => sx_bad
       end
   | _ => sx_bad
